@@ -57,6 +57,7 @@ struct InFlight
     std::vector<int> completes;      // indexes into World::sent: messages whose last frame this is
     bool isSegmentFrame{false};
     long allocFail{-1};  // F_ALLOCFAIL
+    bool hasLead{false};  // unsegmented messages travel in front of the segment (version / type corruption would change THEM)
 };
 
 struct InFlightCmp
@@ -116,6 +117,11 @@ private:
     std::unique_ptr<lib::Dec> relayDec;
     uint64_t relayCalls{0};
     uint64_t decShadowSeen{0};
+    // simulated wall clock (simclock.cpp)
+    uint64_t clockJumpSeed{0};
+    uint64_t clockOffsetNs{0};
+    uint64_t clockTicks{0};
+    void syncClock();
 
     // C01: per endpoint queue of packets still to be delivered
     std::map<Endpoint, std::deque<ExpPacket>> expectQueue;
@@ -132,6 +138,8 @@ private:
         bool hasFields{false};
         size_t prevLen{0};
         bool fromWire{false};
+        lib::BuildData prevBd;  // content of the previous step (near-identical follow-ups)
+        bool hasPrevBd{false};
         Bytes wireHeader;  // from-wire objects: the header bytes they were born with (length / DLC bytes zeroed)
     };
     std::map<int, BuilderSlot> builders;
